@@ -76,6 +76,9 @@ inductive Conn | tcp | udp | peer (i : Nat)
 inductive Ev
   | reg (n : Name) (id : Nat) | unreg (n : Name) (id : Nat) | rel (id : Nat) | join (id : Nat)
   | handler (i : Nat)
+  | warn (id : Nat)      -- `QMI_Instrument.release_rpc_object`: "removed while still open" (the transport is NOT closed)
+  | tstop (id : Nat)     -- `QMI_TaskRunner.release_rpc_object`: task not joined, `stop()` + `join()` of its thread
+  | relExc (id : Nat)    -- the release step raised; `_RpcThread.run` logs and swallows it
   deriving DecidableEq, Repr
 
 structure Ctx where
@@ -90,6 +93,7 @@ structure Ctx where
   tcpSet   : Bool                          -- `_message_router.tcp_server_port != 0`
   nextId   : Nat
   released : List Nat                      -- ids in the order their `release_rpc_object` ran
+  leftOpen : List Nat                      -- instruments released while open: their transport stays open
   stopH    : List HF
   hcalls   : List Nat                      -- invocation count per stop handler
   log      : List Ev
@@ -101,7 +105,7 @@ def ctxObj : Obj := { id := 0, name := 0, kind := .rpc, relF := false, runB := .
 def Ctx.init (cfgTcp : Bool) : Ctx :=
   { cfgTcp, objMap := [(0, some 0)], handlers := [(0, 0)], mgrs := [ctxObj], conns := [],
     active := false, used := false, routerUp := false, tcpSet := false, nextId := 1,
-    released := [], stopH := [], hcalls := [], log := [.reg 0 0] }
+    released := [], leftOpen := [], stopH := [], hcalls := [], log := [.reg 0 0] }
 
 def Obj.taskAlive (o : Obj) : Bool := o.kind == .task && (o.ts == .ready || o.ts == .running)
 
@@ -182,13 +186,26 @@ def unregister (c : Ctx) (n : Name) (id : Nat) : Except Exc Ctx :=
     else .error .unknownName
   | none => .error .unknownName
 
-/-- `RpcObjectManager.stop()` of an initialised object: `_running = False`, thread shutdown, the thread
-rejects queued requests, calls `release_rpc_object()` inside `try/except BaseException` (a raising
-release step is logged and swallowed; a task runner stops and joins its task thread there), ends; `join()`. -/
+/-- what `release_rpc_object()` does, per category (`instrument.py`, `task.py`, the test classes' override):
+an instrument only *warns* if it is still open; a task runner that was not joined stops its task and joins the task
+thread, and that `join()` raises `QMI_TaskRunException` if the task body had raised; the object's own release code may
+raise.  Every exception is caught by `_RpcThread.run` (`except BaseException`: logged, swallowed). -/
+def relEvents (o : Obj) : List Ev :=
+  [.rel o.id] ++
+  (if o.kind == .instr && o.isOpen then [.warn o.id] else []) ++
+  (if o.kind == .task && o.ts != .joined then [.tstop o.id] else []) ++
+  (if o.relF || (o.kind == .task && o.ts != .joined && o.started && o.runB == .raise) then [.relExc o.id] else []) ++
+  [.join o.id]
+
+def leftOpenOf (o : Obj) : List Nat := if o.kind == .instr && o.isOpen then [o.id] else []
+
+/-- `RpcObjectManager.stop()` of an initialised object: `_running = False`, thread shutdown, the thread rejects queued
+requests (layer D: `Model/ContextCalls.lean`), runs the release step (`relEvents`), ends; `join()`. -/
 def mgrStop (c : Ctx) (o : Obj) : Ctx :=
   { c with released := c.released ++ [o.id],
+           leftOpen := c.leftOpen ++ leftOpenOf o,
            mgrs := c.mgrs.filter (fun x => x.id != o.id),
-           log := c.log ++ [.rel o.id, .join o.id] }
+           log := c.log ++ relEvents o }
 
 /-- `manager.stop()` after a failed constructor: the thread has already returned; no release step -/
 def mgrStopFailed (c : Ctx) (id : Nat) : Ctx := { c with log := c.log ++ [.join id] }
@@ -594,6 +611,27 @@ def CState.outcome (st : CState) : COutcome :=
 def allScheds : Nat → List (List Bool)
   | 0 => [[]]
   | k + 1 => (allScheds k).flatMap (fun l => [true :: l, false :: l])
+
+/-! ### two makers racing each other (`make ‖ make`, possibly for the same name) -/
+
+structure C2State where
+  c  : Ctx
+  m1 : MPc
+  m2 : MPc
+  deriving DecidableEq, Repr
+
+def c2step (a1 a2 : MakeArgs) (st : C2State) (pick1 : Bool) : C2State :=
+  if st.m1.isDone && st.m2.isDone then st
+  else if (pick1 && !st.m1.isDone) || st.m2.isDone then
+    let (c, m) := stepM a1 st.c st.m1; { st with c, m1 := m }
+  else
+    let (c, m) := stepM a2 st.c st.m2; { st with c, m2 := m }
+
+def c2run (a1 a2 : MakeArgs) (st : C2State) (sched : List Bool) : Nat → C2State
+  | 0 => st
+  | fuel + 1 => c2run a1 a2 (c2step a1 a2 st (sched.headD true)) sched.tail fuel
+
+def c2init (c : Ctx) : C2State := { c := { c with log := [] }, m1 := .reserve, m2 := .reserve }
 
 /-- an active context holding the objects made by `ops` -/
 def populated (cfgTcp : Bool) (ops : List Op) : Ctx := run (Ctx.init cfgTcp) (.start false false :: ops)
